@@ -10,7 +10,10 @@ def load_claimed():
     """per-property metadata lives next to the check: harness/props/cXX.meta.json
     with keys technique, level_text, level_note, design_ref."""
     out = {}
+    ready = set((ROOT / 'tools' / 'claimed.txt').read_text().split())   # integrator's list of finished checks
     for f in sorted((ROOT / 'harness' / 'props').glob('c*.meta.json')):
+        if f.name.split('.')[0].upper() not in ready:
+            continue
         m = json.loads(f.read_text())
         out[f.name.split('.')[0].upper()] = (m['technique'], m['level_text'], m['level_note'], m.get('design_ref', 'DESIGN.md section 4'))
     return out
